@@ -276,6 +276,7 @@ type Sched struct {
 
 	onStep  []func() string
 	onEnd   []func() string
+	atRest  []func()
 	outcome []string
 
 	monitor *Obj
